@@ -16,6 +16,7 @@ import warnings
 from fractions import Fraction
 
 sys.path.insert(0, os.path.dirname(os.path.dirname(os.path.abspath(__file__))))
+sys.path.insert(0, os.path.dirname(os.path.abspath(__file__)))
 import vlib
 from vlib import Broken, Failure, Check
 
@@ -258,7 +259,7 @@ class C18(Check):
     pid = "C18"
     level = "proof"
     prop_modules = ["WntrModel.Props.C18"]
-    extra_targets = ["WntrModel.Model.Segments"]
+    extra_targets = ["WntrModel.Model.Segments", "WntrModel.Model.SegmentsShape"]
     manifest = dict(
         category="proof",
         text="Lean theorems for every multigraph without self-loops, every valid valve layer (any subset of link-end pairs, duplicates "
@@ -267,7 +268,11 @@ class C18(Check):
         "count their members, num_surround counts the other valves touching either segment and is 0 for equal sides, and the "
         "demand/length increase is (a+b)/max(a,b)-1 = min/max, 0 when both are 0. The contract is PROVED for a concrete components "
         "function (compChecked: n sweeps of min-label relaxation + closure test; compChecked_ok), so labels_partition_concrete has no "
-        "hypothesis on networkx; networkx.connected_components is tied to it by an explicit differential oracle on every generated graph. The tie is a differential run of the real "
+        "hypothesis on networkx; the statement skeleton of valve_segments / _valve_criticality* (de-duplication, the five labelling passes with "
+        "guards and statements in order, valved-link definition, assembly, attribute formulas) is regenerated by ast as typed tokens on every run, "
+        "proved equal to the reference skeleton (generated_segments_shape_is_ref) whose pass-by-pass interpretation (running seg_index, in-place "
+        "seg_label) is proved to compute exactly the closed-form labels / attribute formulas (generated_labels_are_model, "
+        "generated_attributes_are_model, generated_labels_partition); networkx.connected_components is tied to it by an explicit differential oracle on every generated graph. The tie is a differential run of the real "
         "valve_segments + valve_segment_attributes (same DataFrame) against the Lean driver and an independent union-find.",
         design_ref="DESIGN.md §5 C18, §4 M9",
         note="trusted: Lean kernel, axioms {propext, Classical.choice, Quot.sound}; the correspondence harness. Modelled, not verified: "
@@ -294,7 +299,15 @@ class C18(Check):
     ]
 
     def translate(self, ctx):
-        return
+        # statement skeleton of valve_segments / _valve_criticality* as typed tokens (Props/C18: generated_segments_shape_is_ref)
+        import c18_translate as T
+
+        try:
+            txt = T.translate(vlib.REPO)
+        except T.Bad as e:
+            raise vlib.BrokenTie(str(e))
+        ctx.cov["skeleton_tokens_other"] = txt.split("def segTexts")[0].count(".other")
+        vlib.write_if_changed(os.path.join(vlib.GEN, "SegmentsShape.lean"), txt)
 
     def judge(self, ctx, c, out, failures, broken, model_line):
         sn, sl, sattr = spec(effective(c))
